@@ -2,3 +2,4 @@ pub mod value;
 pub mod mutate;
 pub mod readers;
 pub mod filter;
+pub mod arb;
